@@ -162,8 +162,8 @@ def run_actions(ctx, cases, label=""):
 def check_c49(ctx):
     q = ctx.tier == "quick"
     defs, examples = doc_constants()
-    runs = [{"KEYS": '{"a", "b"}', "MAXPAIRS": 3}] if q else \
-           [{"KEYS": '{"a", "b", "c"}', "MAXPAIRS": 3}]
+    runs = [{"KEYS": '{"a", "b"}', "MAXPAIRS": 3}, {"KEYS": '{"a", "b", "ab"}', "MAXPAIRS": 2}] if q else \
+           [{"KEYS": '{"a", "b", "ab", "ba"}', "MAXPAIRS": 3}]
     cases = []
     seen = set()
     for r in runs:
@@ -187,7 +187,7 @@ def check_c49(ctx):
     ctx.cov["rule"] = ("cases = every (action, parameter class, request shape) state of Actions.tla: all documented "
                        "rewrite/header/redirect actions of docs/en_us/modules (action lists and variables read from "
                        "the documents at run time), queries = all ordered lists of <= MaxPairs pairs over Keys x "
-                       "{plain, percent-encoded key} x {k=1, k=2, k without '='}, hosts/paths/header multiplicities "
+                       "{plain, percent-encoded key} x {k=1, k=a, k without '='} (keys ab / ba contain a and b), hosts/paths/header multiplicities "
                        "as listed in the spec, plus the documents' own example rule files; each is loaded through the "
                        "module's reload handler and executed by the module's registered filters on a request parsed "
                        "by bfe_http; distinct = distinct decisive (non-gray) cases.")
@@ -286,20 +286,26 @@ def run_cors(ctx, cases, label=""):
 
 
 def check_c52(ctx):
-    g = ctx.tlc_must_pass(SPEC, "GenCors", "Cors_MC.cfg", timeout=900)
+    d = {"MAXTOK": 2 if ctx.tier == "quick" else 3}
+    g = ctx.tlc_must_pass(SPEC, "GenCors", "Cors_MC.cfg", defines=d, timeout=1500)
     if not g.cases or len(g.cases) != g.distinct:
         raise vlib.MachineryError("GenCors printed %d cases for %d states" % (len(g.cases), g.distinct))
     ctx.cov["exhaustive"] = True
     ctx.cov["constants"]["Cors"] = {"origins": "allowed, allowed2, other, suffix/prefix look-alikes, null, garbage, absent",
                                     "rule forms": "one, two, *, %origin, null, %origin+one", "credentials": "both",
                                     "optional lists": "all set / none set", "request": "GET, preflight, bare OPTIONS",
-                                    "vary before": "none, *, Accept-Encoding, Origin, origin, list with/without Origin, two lines"}
+                                    "vary before": "none, *, Accept-Encoding, Origin, origin, list with/without Origin, two lines; "
+                                                   "plus every arrangement of <= MaxTok field names over {*, Accept-Encoding, Origin, "
+                                                   "oRiGiN, X-Original-Host, Origin-Agent-Cluster, X-Forwarded-Origin, "
+                                                   "x-forwarded-origin-country, X-*, *-Wild} in <= MaxTok lines, separators ',' and ', '",
+                                    "MaxTok": d["MAXTOK"]}
     ctx.cov["rule"] = ("cases = every state of Cors.tla (origin class x rule form x credentials x optional lists x request "
                        "kind x pre-existing Vary); the rule is loaded by mod_cors' reload handler, the request is parsed by "
                        "bfe_http and passes the filters the module registered at HandleFoundProduct and (with a backend "
                        "response carrying the pre-existing Vary) HandleReadResponse; obligations: ACAO exactly for allowed "
                        "origins with the configured value, no Access-Control-* for others, never * with credentials, Vary "
-                       "keeps its values and contains Origin (or *) when the granted value depends on the Origin. "
+                       "keeps its values and contains Origin (or *) when the granted value depends on the Origin - judged on the "
+                       "parsed list of field names (names that merely contain 'origin' or '*' do not count). "
                        "distinct = cases with an Origin header.")
     ctx.assumptions += ["Vary is not judged when nothing is granted (whether a refusal must vary on Origin is left open)",
                         "which rule files the loader refuses is Layer M; '*' with credentials is judged on responses only"]
